@@ -37,7 +37,15 @@ pub fn run(o: &Opts) {
     for (ci, c) in o.str("configs", "20:2:1").split(';').filter(|s| !s.is_empty()).enumerate() {
         let v: Vec<u64> = c.split(':').map(|x| x.parse().unwrap()).collect();
         let (f, t, z) = (v[0], v[1], v[2]);
-        let data = crate::codec::object_data(seed + 31 * ci as u64, f as usize);
+        // optional 4th field: data kind - 0 as drawn by object_data, 1 all zero, 2 one constant byte, 3 a 16-byte period
+        // (kinds 1-3 make the source blocks of a multi-block object byte-identical)
+        let kind = v.get(3).copied().unwrap_or(0);
+        let data: Vec<u8> = match kind {
+            1 => vec![0u8; f as usize],
+            2 => vec![0xA5u8; f as usize],
+            3 => (0..f as usize).map(|i| (i % 16 * 13 + 7) as u8).collect(),
+            _ => crate::codec::object_data(seed + 31 * ci as u64, f as usize),
+        };
         let oti = Oti::new(f, t as u16, z as u8, 1, 1);
         tr.emit(json!({"ev":"cfg","id":ci,"f":f,"t":t,"z":z,"data":data}));
         let whole = Encoder::new(&data, oti);
